@@ -216,7 +216,6 @@ func runStream(sc streamCase) caseResult {
 				time.Sleep(2 * time.Millisecond)
 			}
 			errFanout = int(atomic.LoadInt64(&e.errs) - e0)
-			ss.linkCut()
 			dead = !waitResumed(before)
 		case "lose-kept", "lose-lost", "cut-kept", "cut-lost":
 			if strings.HasPrefix(ev, "lose") {
